@@ -47,6 +47,7 @@ DATASET_LABELS = ["dsA", "dsB", "dsC", "dsD"]
 GROUP_LABELS = ["g", "g1", "0", "grp.x", "Default"]
 
 TIME_AXIS = [round(-1.0 + 0.75 * i, 6) for i in range(13)]
+TIME_AXIS_FULL = [round(-1.0 + 0.4 * i, 6) for i in range(25)]  # full models: up to 12 x 6 kron columns need >= 72 data points
 SPECTRAL_GLOBAL = [480.0, 500.0, 520.0]
 SPECTRAL_MODEL = [470.0 + 7.5 * i for i in range(9)]
 TIME_GLOBAL = [0.0, 1.0, 2.0]
@@ -545,7 +546,7 @@ def build_data(case: dict) -> dict:
     for dl in sorted(case["data"]):
         kind = case["data"][dl]
         if kind in ("time", "full"):
-            m, g, md, gd = TIME_AXIS, SPECTRAL_GLOBAL, "time", "spectral"
+            m, g, md, gd = (TIME_AXIS if kind == "time" else TIME_AXIS_FULL), SPECTRAL_GLOBAL, "time", "spectral"
         elif kind == "spectral":
             m, g, md, gd = SPECTRAL_MODEL, TIME_GLOBAL, "spectral", "time"
         else:
